@@ -51,12 +51,16 @@ Theorem aesni_key_expand_defined : forall key, (length key = 16 \/ length key = 
 Proof. exact (repo_key_expand_aesni_some sbox_fast). Qed.
 
 (* ------------------------------------------------------------------ CTR over AES *)
-Lemma ctr_spec_ext E1 E2 nonce data :
-  (forall b, E1 b = E2 b) -> ctr_spec E1 nonce data = ctr_spec E2 nonce data.
+Lemma ctr_spec_from_ext E1 E2 nonce B data :
+  (forall b, E1 b = E2 b) -> ctr_spec_from E1 nonce B data = ctr_spec_from E2 nonce B data.
 Proof.
-  intros H. unfold ctr_spec, keystream_bytes. f_equal. apply flat_map_ext.
+  intros H. unfold ctr_spec_from, keystream_bytes_from. f_equal. apply flat_map_ext.
   intros i. unfold keystream. apply H.
 Qed.
+
+Lemma ctr_spec_ext E1 E2 nonce data :
+  (forall b, E1 b = E2 b) -> ctr_spec E1 nonce data = ctr_spec E2 nonce data.
+Proof. intros H. unfold ctr_spec. apply ctr_spec_from_ext. exact H. Qed.
 
 (* AES-NI build: key expansion, block function and stream routing all as modelled from the C;
    the bytes written by any sequence of calls are SP 800-38A CTR over FIPS-197 AES *)
@@ -74,6 +78,23 @@ Proof.
     as (s' & outs & Hrun & Hcat & Hlen).
   exists s', outs. split; [exact Hrun|]. split; [|exact Hlen].
   rewrite Hcat. apply ctr_spec_ext. intros b. apply (x_aesni_block_is_fips197 key k b Hk).
+Qed.
+
+(* the same for an object positioned at block B by the correspondence harness (white-box seek) *)
+Theorem aesctr_aesni_seek_is_ctr_of_fips197 : forall key k nonce B any chunks,
+  x_key_expand_aesni key = Some k ->
+  st_wf any -> 16 * B + N.of_nat (length (concat chunks)) < two64 ->
+  exists s' outs,
+    stream_all (x_encrypt_block_aesni k) true (x_seek (16 * B) (x_init2 nonce any)) chunks = Ok (s', outs) /\
+    concat outs = ctr_spec_from (AES_encrypt key) nonce B (concat chunks) /\
+    map (@length N) outs = map (@length N) chunks.
+Proof.
+  intros key k nonce B any chunks Hk Hwf Hb.
+  destruct (ctr_seek_stream_correct (x_encrypt_block_aesni k)
+              (repo_encrypt_block_aesni_length sbox_fast k) true nonce B any chunks Hwf Hb)
+    as (s' & outs & Hrun & Hcat & Hlen).
+  exists s', outs. split; [exact Hrun|]. split; [|exact Hlen].
+  rewrite Hcat. apply ctr_spec_from_ext. intros b. apply (x_aesni_block_is_fips197 key k b Hk).
 Qed.
 
 (* software build: the block function is OpenSSL's, which is NOT modelled; with E = FIPS-197 AES
